@@ -238,7 +238,7 @@ Proof.
     destruct (get_obj _ _ _ _ _ _ _ _) as [h1 ob]. cbn in Hg. cbn.
     assert (evs_ok (add_req h1 (mkReq 0 ob key cid sid (add64 (h_clock (H s)) to) (cnc s) 0 false [] [] []))) as Ha
       by (apply evs_ok_add_req; [reflexivity | exact Hg]).
-    destruct (find_key key (pend (P s))); [same_reqs | exact Ha].
+    destruct (find_key key (pend (P s))); [same_reqs|]. destruct (key_in_flight (H s) key); [same_reqs | exact Ha].
   - (* ProposeB *)
     destruct (_ && _); [|exact Hok].
     destruct (proposeB_outcome s =? 0); cbn; apply evs_ok_updR_same; auto.
